@@ -347,8 +347,8 @@ C18Mix(o, k, b) ==
                   LET v == ValOfAlt(before, a, comp.id)
                       num == IF ty = "cost" THEN rg.max - v ELSE v - rg.min
                   IN IF diff = 0 THEN Near(comp.scaledValues[a], 0, Slack)
-                     ELSE LET q == (num * (T \div 16)) \div (diff \div 16 + (IF diff \div 16 = 0 THEN 1 ELSE 0))  \* coarse, overflow-safe
-                          IN Near(comp.scaledValues[a], q, 4 * Slack + (NAbs(q) \div 64))
+                     (* comp = num * T / diff, compared cross-multiplied; every operand carries a rounding error of one unit *)
+                     ELSE Near(comp.scaledValues[a] * diff, num * T, 2 * (NAbs(diff) + NAbs(comp.scaledValues[a]) + T) + 4)
            targets == {LET rg == RangeOf(before, c) IN NMax(NMax(NAbs(rg.min), NAbs(rg.max)), rg.max - rg.min) : c \in StCritIds(before)}
        IN (IF nc.type = "gain" THEN {} ELSE {BFail("C18", "not-gain", "")})
           \cup (IF shape THEN {} ELSE {BFail("C18", "shape", "")})
@@ -425,14 +425,15 @@ C19Event(o, k, b) ==
                     /\ (PGet(FunParams(fd), "multiplier", 0) = 0 => got = 0)
                     /\ ((PGet(FunParams(fd), "multiplier", 0) > 0 /\ PGet(FunParams(fd), "alpha", 0) > 0) => (IF better THEN got >= 0 ELSE got <= 0))
                 ELSE IF den = 0 THEN Near(got, 0 - PGet(FunParams(fd), "b", 0), Slack)      \* scale 0: difference 0 -> -loss(0)
-                ELSE IF better THEN Near(got * den, LinVal2(FunParams(fd), num, den, u), Slack * NAbs(den) + u)
-                ELSE Near(got * den, 0 - LinVal2(FunParams(fd), 0 - num, den, u), Slack * NAbs(den) + u)
+                ELSE LET tol == Slack * NAbs(den) + 2 * NAbs(PGet(FunParams(fd), "a", 0)) + 2 * NAbs(got) + 2 * NAbs(PGet(FunParams(fd), "b", 0)) + u IN
+                     IF better THEN Near(got * den, LinVal2(FunParams(fd), num, den, u), tol)
+                     ELSE Near(got * den, 0 - LinVal2(FunParams(fd), 0 - num, den, u), tol)
            refOK == /\ rp.id = strat /\ DOMAIN rp.criteria = C
                     /\ \A c \in C : rp.criteria[c] \in AnchorAdmissible(ty[c], aa, allv(c), strat)
            scalingOK == /\ DOMAIN rep.criteriaScaling = C
                         /\ \A c \in C : LET rg == RangeOf(before, c) sc == rep.criteriaScaling[c] IN
                               /\ sc.valuesRange.min = rg.min /\ sc.valuesRange.max = rg.max
-                              /\ (IF rg.max = rg.min THEN sc.scale = 0 ELSE Near(sc.scale * (rg.max - rg.min), u * u, NAbs(rg.max - rg.min) + u))
+                              /\ (IF rg.max = rg.min THEN sc.scale = 0 ELSE Near(sc.scale * (rg.max - rg.min), u * u, 2 * NAbs(sc.scale) + NAbs(rg.max - rg.min) + u))
            (* inline applier *)
            applied == rep.applierResult.appliedDifferences
            appliedOf(a) == applied[CHOOSE i \in DOMAIN applied : applied[i].id = a].criteria
